@@ -1465,3 +1465,44 @@ pub fn first_packet_close_native(_x: u8) -> u32 {
     assert!(conn.state.is_drained(), "the drain timer did not drain the connection");
     1
 }
+
+/// Native replay body for the E2 query `e2_connection_new_idle_timeout` (C08): a real `Connection` created
+/// with `max_idle_timeout` set to `ms` milliseconds through the public configuration API.  Before the peer's
+/// parameters arrive a value of 0 means "no idle timeout" - no idle timer may be armed, whatever happens next;
+/// a non-zero value arms the timer that far (or three probe timeouts) ahead.
+pub fn new_idle_timeout_native(ms: u16) -> u32 {
+    let now = crate::verif::mk_instant(50, 0).unwrap();
+    let ep_cfg = Arc::new(EndpointConfig::new(Arc::new(nullcrypto::NullHmac)));
+    let mut tc = TransportConfig::default();
+    tc.max_idle_timeout(Some(VarInt::from_u32(ms as u32).into()));
+    let cid_gen = crate::RandomConnectionIdGenerator::new(8);
+    let mut conn = Connection::new(
+        ep_cfg,
+        Arc::new(tc),
+        ConnectionId::new(&[1; 8]),
+        ConnectionId::new(&[2; 8]),
+        ConnectionId::new(&[3; 8]),
+        addr(1, 4433),
+        None,
+        Box::new(nullcrypto::NullSession),
+        &cid_gen,
+        now,
+        1,
+        true,
+        [9; 32],
+        SideArgs::Client { token_store: Arc::new(crate::NoneTokenStore), server_name: "localhost".into() },
+    );
+    // whatever restarts the idle timer before the handshake completes (a packet from the peer, our own first flight)
+    conn.reset_idle_timeout(now, SpaceId::Initial);
+    let armed = conn.timers.get(Timer::Idle);
+    if ms == 0 {
+        assert!(conn.idle_timeout.is_none(), "an idle timeout configured as 0 must mean disabled");
+        assert!(armed.is_none(), "idle timer armed although the idle timeout is disabled");
+        1
+    } else {
+        assert!(conn.idle_timeout == Some(Duration::from_millis(ms as u64)));
+        let t = armed.expect("idle timer armed");
+        assert!(t >= now + Duration::from_millis(ms as u64), "idle timer earlier than the configured timeout");
+        2
+    }
+}
